@@ -209,11 +209,14 @@ def readCommands (d : TrkData α S E P) : TrkData α S E P :=
   | none => d2
 
 mutual
-/-- mirrors: track/sub.rs::Track::should_be_removed, backend/resources.rs::ResourceStorage::is_empty
-    (`self.sounds.is_empty()`: nothing in the arena and nothing waiting in the new-resource ring) -/
+/-- mirrors: track/sub.rs::Track::should_be_removed, backend/resources.rs::ResourceStorage::is_empty, backend/resources.rs::ResourceStorage::has_pending
+    (`self.sounds.is_empty()`: nothing in the arena and nothing waiting in the new-resource ring;
+    `self.sub_tracks.has_pending()`: a sub-track is waiting in the new-resource ring) -/
 def shouldBeRemoved : Trk α S E P → Bool
-  | node d children _ =>
-    if anyNotRemovable children then false
+  | node d children pending =>
+    -- `self.sub_tracks.has_pending()`
+    if !pending.isEmpty then false
+    else if anyNotRemovable children then false
     else if d.persist then d.marked && (d.sounds.isEmpty && d.pendingSounds.isEmpty)
     else d.marked
 /-- `self.sub_tracks.iter().any(|(_, t)| !t.should_be_removed())` -/
